@@ -223,6 +223,121 @@ def _(s):
                '    from orjson import dumps as _orjson_dumps\n\n    def _dumps_bytes(o, default=None):\n'
                '        import json as _j\n        return _j.dumps(_j.loads(_orjson_dumps(o, default=default)), ensure_ascii=False).encode("utf-8")\n')
 
+@mutant("c06_lock_to_flag", "eliot/_action.py")
+def _(s):
+    s = rep(s, "    called = threading.Lock()\n", "    called = [False]\n")
+    return rep(s, "        if not called.acquire(False):\n            raise TooManyCalls(f)\n",
+               "        if called[0]:\n            raise TooManyCalls(f)\n        called[0] = True\n")
+
+@mutant("c06_serialize_no_reserve", "eliot/_action.py")
+def _(s):
+    return rep(s, """            self._identification[TASK_UUID_FIELD], self._nextTaskLevel().toString()
+        ).encode("ascii")""", """            self._identification[TASK_UUID_FIELD],
+            (self._last_child.next_sibling() if self._last_child else self._task_level.child()).toString()
+        ).encode("ascii")""")
+
+@mutant("c06_continue_new_uuid", "eliot/_action.py")
+def _(s):
+    return rep(s, "            logger, uuid, TaskLevel.fromString(task_level), action_type, _serializers\n",
+               "            logger, str(uuid4()), TaskLevel.fromString(task_level), action_type, _serializers\n")
+
+@mutant("c06_fromstring_drops_last", "eliot/_action.py")
+def _(s):
+    return rep(s, '        return cls(level=[int(i) for i in string.split("/") if i])',
+               '        lv = [int(i) for i in string.split("/") if i]\n        return cls(level=lv if len(lv) < 3 else lv[:-1] + [lv[-1] % 9 + 1])')
+
+@mutant("c09_complete_ge", "eliot/parse.py")
+def _(s):
+    return rep(s, "and (len(node.children) == node.end_message.task_level.level[-1] - 2)",
+               "and (len(node.children) >= node.end_message.task_level.level[-1] - 3)")
+
+@mutant("c09_no_parent_reeval", "eliot/parse.py")
+def _(s):
+    return rep(s, "        parent = parent._add_child(child)\n        return self._insert_action(parent)",
+               "        parent = parent._add_child(child)\n        return self.transform([\"_nodes\", parent.task_level], parent)._ensure_node_parents(parent)")
+
+@mutant("c09_child_complete_skipped", "eliot/parse.py")
+def _(s):
+    return rep(s, "                    and child.task_level not in self._completed\n",
+               "                    and child.task_level not in self._completed\n                    and len(child.task_level.as_list()) < 3\n")
+
+@mutant("c09_parser_keeps_completed", "eliot/parse.py")
+def _(s):
+    return rep(s, '            parser = self.transform(["_tasks", uuid], discard)\n            return [task], parser',
+               '            parser = self.transform(["_tasks", uuid], task)\n            return [task], parser')
+
+@mutant("c13_no_copy_without_serializer", "eliot/_output.py")
+def _(s):
+    return rep(s, "        dictionary = dictionary.copy()\n        try:\n            if serializer is not None:",
+               "        if serializer is not None:\n            dictionary = dictionary.copy()\n        try:\n            if serializer is not None:")
+
+@mutant("c13_serialize_twice", "eliot/_output.py")
+def _(s):
+    return rep(s, "                serializer.serialize(dictionary)\n        except:",
+               "                serializer.serialize(dictionary)\n                serializer.serialize(dictionary)\n        except:")
+
+@mutant("c13_serialize_in_place", "eliot/_output.py")
+def _(s):
+    return rep(s, "        dictionary = dictionary.copy()\n        try:", "        try:")
+
+@mutant("c13_deliver_despite_failure", "eliot/_output.py")
+def _(s):
+    return rep(s, """                __eliot_logger__=self,
+            )
+            return
+""", """                __eliot_logger__=self,
+            )
+""")
+
+@mutant("c13_no_traceback_on_failure", "eliot/_output.py")
+def _(s):
+    return rep(s, "        except:\n            write_traceback(self)\n", "        except:\n")
+
+@mutant("c15_context_per_resumption", "eliot/_generators.py")
+def _(s):
+    return rep(s, "                value_out = context.run(go)", "                value_out = copy_context().run(go)")
+
+@mutant("c15_no_context", "eliot/_generators.py")
+def _(s):
+    return rep(s, "                value_out = context.run(go)", "                value_out = go()")
+
+@mutant("c15_throw_becomes_send", "eliot/_generators.py")
+def _(s):
+    return rep(s, "                    ok = False\n                    value_in = exc_info()",
+               "                    import sys as _s\n                    if _s.exc_info()[0] is GeneratorExit:\n                        ok = False\n                        value_in = exc_info()\n                    else:\n                        ok = True\n                        value_in = None")
+
+@mutant("c15_drop_sent_value", "eliot/_generators.py")
+def _(s):
+    return rep(s, "                    value_in = yield value_out\n", "                    yield value_out\n                    value_in = None\n")
+
+@mutant("c15_return_dropped", "eliot/_generators.py")
+def _(s):
+    return rep(s, "                return e.value\n", "                break\n")
+
+@mutant("c17_shallow_of_type", "eliot/testing.py")
+def _(s):
+    return rep(s, "                and message[ACTION_STATUS_FIELD] == STARTED_STATUS\n            ):",
+               "                and message[ACTION_STATUS_FIELD] == STARTED_STATUS\n                and len(message[TASK_LEVEL_FIELD]) <= 2\n            ):")
+
+@mutant("c17_children_by_type", "eliot/testing.py")
+def _(s):
+    return rep(s, "                and messageLevel[:-2] == levelPrefix\n                and messageLevel[-1] == 1",
+               "                and messageLevel[:-3] == levelPrefix[:-1]\n                and messageLevel[-1] == 1")
+
+@mutant("c17_descendants_skip_nested", "eliot/testing.py")
+def _(s):
+    return rep(s, "            if isinstance(child, LoggedAction):\n                for descendant in child.descendants():\n                    yield descendant",
+               "            if isinstance(child, LoggedAction):\n                for descendant in child.children:\n                    yield descendant")
+
+@mutant("c17_superset_ignores_values", "eliot/testing.py")
+def _(s):
+    return rep(s, "        [(key, value) for key, value in message.items() if key in fields]\n    )\n    test.assertEqual(messageSubset, fields)",
+               "        [(key, value) for key, value in message.items() if key in fields]\n    )\n    test.assertEqual(set(messageSubset), set(fields))")
+
+@mutant("c17_has_action_ignores_status", "eliot/testing.py")
+def _(s):
+    return rep(s, "    testCase.assertEqual(action.succeeded, succeeded)\n", "")
+
 def main():
     name = sys.argv[1]
     d = sys.argv[2] if len(sys.argv) > 2 else "/tmp/mut"
